@@ -29,6 +29,17 @@ bool Interp::exec_coll(Interp &I, const Stmt &s)
         });
         return true;
     }
+    if (s.op == "cfb")
+    {
+        const std::string shape = s.kws("shape", "tsl");
+        with_shape(shape, [&]<typename S>() {
+            auto fb = std::make_shared<stdlib::FeedbackWiringPort<S>>(stdlib::feedback<S>(w));
+            Wiring *wp = &w;
+            I.cfbs[s.dst] = Interp::FbAny{[fb] { return (*fb)().erased(); },
+                                          [fb, wp](WiringPortRef r) { (*fb)(Port<S>{*wp, std::move(r)}); }, shape};
+        });
+        return true;
+    }
     if (s.op == "cmirror")
     {
         PortVal v = I.get(a.at(0));
